@@ -248,6 +248,9 @@ func (w *World) refreshShadow(n *node, post *raft.VerifState, in *pb.Message, ki
 	}
 	if mayRewrite && post.LastIndex < oldTop && post.FirstIndex <= oldTop {
 		w.Stats["truncations"]++
+		w.sample("C03", func() any {
+			return map[string]any{"node": n.id, "on": in.GetType().String(), "from_leader": in.GetFrom(), "leader_term": in.GetTerm(), "log_end_before": oldTop, "log_end_after": post.LastIndex, "commit": post.Commit}
+		})
 	}
 	n.prevShadow, n.prevShadowBase = n.shadow, n.shadowBase
 	n.shadow, n.shadowBase, n.shadowBaseChain, n.shadowBaseOK = ns, newBase, baseChain, baseOK
